@@ -117,7 +117,7 @@ CHECKS.update({
             "(open, read, close, drop, gc) checking the number of open descriptors after every step, 700 unclosed unreferenced ports under "
             "RLIMIT_NOFILE=64, and ports held only as ephemeron values; scheme/weak/fds2.scm runs every history of <= 4 operations over two "
             "slots x {file port, port on a descriptor object, bare descriptor object closed explicitly}: nothing reachable is ever closed "
-            "(exact lower bound, readability), nothing unreachable stays open beyond a lag of two.",
+            "(exact lower bound, readability), nothing unreachable stays open beyond a small lag.",
             "The harness owns all roots; /proc/self/fd is the descriptor oracle; weak hash tables are not exported by the pinned (chibi weak).",
             "DESIGN.md §4 C16"),
 })
